@@ -54,8 +54,21 @@ type sleeper struct {
 	until time.Time
 }
 
+// quietMutex is a mutex whose acquire / release are invisible to the race detector: the
+// simulator's own lock must never contribute a happens-before edge between server goroutines (or
+// between the driver and a server goroutine), or it would order accesses that nothing in the
+// server orders and hide real races (e.g. an answer marshalled after its handler released the
+// request mutex vs. the next handler writing the same buffer).
+type quietMutex struct{ m sync.Mutex }
+
+//go:norace
+func (q *quietMutex) Lock() { RaceOff(); q.m.Lock(); RaceOn() }
+
+//go:norace
+func (q *quietMutex) Unlock() { RaceOff(); q.m.Unlock(); RaceOn() }
+
 var (
-	mu sync.Mutex
+	mu quietMutex
 	// On is true while a simulated run is in progress.
 	On bool
 
